@@ -1010,7 +1010,7 @@ def judge_toggle(c, steps):
 
 
 def witness_hidej_switched():
-    """W7 (known defect): hideJacobian, lagged forces, distance variable, applyBias on at step 0 and switched off before step 1."""
+    """W7 (repaired in fix-C04-3): hideJacobian, lagged forces, distance variable, applyBias on at step 0 and switched off before step 1."""
     v = _v1(kind="dist", onesite=False, lower=1.0, upper=3.0)
     c = _c1("W7", v, [(1.5, 1.0, False)] * 3, same=False, apply=True, hideJ=True, T=1000.0, toggle=True)
     for t, a in enumerate([True, False, False]):
